@@ -77,6 +77,13 @@ func txnProgram(j int, tx TxnSpec, uniq int) []string {
 		case 2:
 			// ... and as a REPLACE that reads the table it writes
 			s = append(s, fmt.Sprintf("REPLACE INTO %s (id, n) USING (id) SELECT id, n + 1 FROM %s WHERE id = %d;", t, t, tx.Key))
+		case 3:
+			// the read half of the increment sits in the WITH clause of the data-changing statement
+			s = append(s, fmt.Sprintf("WITH w AS (SELECT n FROM %s WHERE id = %d) UPDATE %s SET n = (SELECT n FROM w) + 1 WHERE id = %d;", t, tx.Key, t, tx.Key))
+		case 4:
+			s = append(s, fmt.Sprintf("WITH w (id, n) AS (SELECT id, n + 1 FROM %s WHERE id = %d) REPLACE INTO %s (id, n) USING (id) SELECT id, n FROM w;", t, tx.Key, t))
+		case 5:
+			s = append(s, fmt.Sprintf("WITH w AS (SELECT id, n FROM %s WHERE id = %d) UPDATE x SET x.n = w.n + 1 FROM %s x JOIN w ON x.id = w.id;", t, tx.Key, t))
 		default:
 			s = append(s, fmt.Sprintf("UPDATE %s SET n = n + 1 WHERE id = %d;", t, tx.Key))
 		}
@@ -226,8 +233,8 @@ func genCounterScenario(prop string, seed uint64, tier string, maxProcs int) (*S
 			if tx.Kind == "forupd" && r.Bool(0.35) {
 				tx.Noop = r.Pick(1, 2, 3)
 			}
-			if tx.Kind == "inc" && r.Bool(0.3) {
-				tx.Form = r.Pick(1, 2)
+			if tx.Kind == "inc" && r.Bool(0.4) {
+				tx.Form = r.Pick(1, 2, 3, 4, 5)
 			}
 			if tx.Kind == "ins" && r.Bool(0.3) {
 				tx.Form = 1
